@@ -236,6 +236,7 @@ class Msg(object):
         self.removed = False
         self.due = None
         self.flushed = False
+        self.may_flush = False
         self.is_bounce = is_bounce
         self.known = False          # the running queue has been told about it (enqueue / load / announce)
         self.open_attempts = 0
@@ -443,6 +444,9 @@ class Engine(object):
         if m is not None:
             m.due = timestamp
             m.flushed = False
+            # a flush() still in progress takes its snapshot of the waiting messages when it gets the scheduler lock, which may
+            # be after this message is re-queued: an early attempt is then permitted (but not required)
+            m.may_flush = any(not t.dead for t in self.flush_threads)
 
     def on_remove(self, tag):
         m = self.msgs.get(tag)
@@ -488,7 +492,7 @@ class Engine(object):
                           % (m.nattempts, tag, missing, rcpts))
             if m.open_attempts:
                 self.fail('C03', 'two-attempts-in-flight', 'message %s has %d attempts in progress' % (tag, m.open_attempts + 1))
-            if m.due is not None and CLOCK.now < m.due and not m.flushed:
+            if m.due is not None and CLOCK.now < m.due and not m.flushed and not m.may_flush:
                 self.fail('C12', 'attempted-early', 'message %s attempted at %.3f, due %.3f' % (tag, CLOCK.now, m.due))
             if attempts != m.attempts:
                 self.fail('C01', 'attempt-count', 'message %s attempt called with attempts=%r, model has %r'
